@@ -69,6 +69,7 @@ type Exec struct {
 	localOrd  map[ssa.Instruction]int            // its flattened per-name ordinal inside its own function
 	before    map[ssa.Instruction]map[string]int // flattened per-name call counts before a call instruction
 	ninlined  int
+	storeName map[ssa.Instruction]string // store:<field>#k anchors
 }
 
 // calleeShortName: the method or function name of a call (for anchors that survive unrelated edits)
@@ -510,6 +511,9 @@ func (ex *Exec) run() (err error) {
 					}
 				case *ssa.Store:
 					have[fmt.Sprintf("store#%d", ex.ordinal[in])] = true
+					if a := ex.storeName[in]; a != "" {
+						have[a] = true
+					}
 				case *ssa.MapUpdate:
 					have[fmt.Sprintf("mapupdate#%d", ex.ordinal[in])] = true
 				}
@@ -1036,6 +1040,9 @@ func (ex *Exec) ghostAt(st *State, in ssa.Instruction) {
 		return
 	}
 	alt := ex.anchorOf(st, in)
+	if a := ex.storeName[in]; a != "" && st.inl == nil {
+		alt = a
+	}
 	if st.inl != nil {
 		anchor = "" // ordinal anchors name instructions of the function itself, not of an inlined helper
 	} else {
